@@ -4,5 +4,5 @@ patch=$1; shift
 git -C /repo apply "$patch" || { echo "patch does not apply"; exit 9; }
 git -C /repo diff --stat | tail -1
 cd /verif
-for p in "$@"; do ./check $p | cut -c1-260; echo "rc($p)=${PIPESTATUS[0]}"; done
+for p in "$@"; do VT_OUT=/verif/gen/_scratch_out ./check $p | cut -c1-260; echo "rc($p)=${PIPESTATUS[0]}"; done
 git -C /repo checkout -- .
